@@ -176,3 +176,29 @@ def simplify_truth(c: Term, subst: Optional[Dict[Term, Term]] = None) -> Optiona
             return True
         return False if all(v is False for v in vals) else None
     return None
+
+
+# ------------------------------------------------------------------------------------------
+# rational normal form: (numerator, denominator) polynomials, for identities with nested
+# divisions (``1 / (a / b) == b / a``)
+
+def to_rat(t: Term, subst: Optional[Dict[Term, Term]] = None):
+    if subst and t in subst:
+        return to_rat(subst[t], subst)
+    if t[0] == 'bin' and t[1] in ('+', '-', '*', '/'):
+        (an, ad), (bn, bd) = to_rat(t[2], subst), to_rat(t[3], subst)
+        if t[1] == '*':
+            return mul(an, bn), mul(ad, bd)
+        if t[1] == '/':
+            return mul(an, bd), mul(ad, bn)
+        return add(mul(an, bd), mul(bn, ad), 1 if t[1] == '+' else -1), mul(ad, bd)
+    if t[0] == 'un' and t[1] == 'neg':
+        n, d = to_rat(t[2], subst)
+        return mul(_const(-1), n), d
+    return to_poly(t, subst), _const(1)
+
+
+def rat_equal(a: Term, b: Term, subst: Optional[Dict[Term, Term]] = None) -> bool:
+    (an, ad), (bn, bd) = to_rat(a, subst), to_rat(b, subst)
+    l, r = mul(an, bd), mul(bn, ad)
+    return {m: c for m, c in l.items() if c != 0} == {m: c for m, c in r.items() if c != 0}
